@@ -399,6 +399,8 @@ class PartialProfile(Profile):
                 continue
             if isinstance(inner, ast.Compare) and len(inner.ops) == 1:
                 l, op, r = inner.left, inner.ops[0], inner.comparators[0]
+                if isinstance(l, ast.Name):
+                    l = ctx.deref(cfg, n, l)[1]  # `length = len(data)` kept in a local is the same test
                 if isinstance(l, ast.Call) and isinstance(l.func, ast.Name) and l.func.id == "len" and l.args and _unparse(l.args[0]) == base:
                     k = ctx.prog.try_const(r, f.module, None, None)
                     if isinstance(k, int):
